@@ -1,6 +1,6 @@
 (** Proofs about Geom/Bounds.v (C08). *)
 From Coq Require Import QArith Qminmax Qabs Qfield Lqa List Bool.
-From CV Require Import Base.Dy Geom.Matrix Geom.MatrixProofs Geom.Bezier Geom.Bounds.
+From CV Require Import Base.Dy Geom.Matrix Geom.MatrixProofs Geom.Bezier Geom.Ellipse Geom.Bounds.
 Import ListNotations.
 Open Scope Q_scope.
 
@@ -452,4 +452,31 @@ Proof.
   - destruct (Q.max_spec (Qmax a c) (bquad a b c T)) as [[_ H]|[_ H]].
     + exists T. split; [lra|rewrite H; reflexivity].
     + destruct MX as (t0 & R & E). exists t0. split; [exact R|rewrite H; exact E].
+Qed.
+
+(** the arc arm of FastBounds: every point of the FULL ellipse lies in centre +- max(rx, ry)
+    (the centre is the one ellipseToCenter derives; it is not modelled, see Corr/C08.v for its tie) *)
+Theorem fastbounds_arc_contains rx ry cs sn c u v :
+  0 <= rx -> 0 <= ry -> cs * cs + sn * sn == 1 -> u * u + v * v == 1 ->
+  let X := ellipse_pos rx ry cs sn c u v in
+  let r := Qmax rx ry in
+  fst c - r <= fst X <= fst c + r /\ snd c - r <= snd X <= snd c + r.
+Proof.
+  intros Hx Hy Hc Hu. cbn zeta.
+  pose proof (ellipse_extent_x rx ry cs sn c u v Hu) as EX. cbn zeta in EX.
+  pose proof (ellipse_extent_y rx ry cs sn c u v Hu) as EY. cbn zeta in EY.
+  set (r := Qmax rx ry).
+  assert (R1 : rx <= r) by apply Q.le_max_l. assert (R2 : ry <= r) by apply Q.le_max_r.
+  assert (R0 : 0 <= r) by lra.
+  assert (S1 : rx * rx <= r * r) by (apply sq_mono; lra).
+  assert (S2 : ry * ry <= r * r) by (apply sq_mono; lra).
+  pose proof (sq_nonneg cs) as C1. pose proof (sq_nonneg sn) as C2.
+  assert (A1 : rx * rx * (cs * cs) <= r * r * (cs * cs)) by (apply Qmult_le_compat_r; assumption).
+  assert (A2 : ry * ry * (sn * sn) <= r * r * (sn * sn)) by (apply Qmult_le_compat_r; assumption).
+  assert (A3 : rx * rx * (sn * sn) <= r * r * (sn * sn)) by (apply Qmult_le_compat_r; assumption).
+  assert (A4 : ry * ry * (cs * cs) <= r * r * (cs * cs)) by (apply Qmult_le_compat_r; assumption).
+  assert (E : r * r * (cs * cs) + r * r * (sn * sn) == r * r) by (transitivity (r * r * (cs * cs + sn * sn)); [ring|rewrite Hc; ring]).
+  assert (BX : (fst (ellipse_pos rx ry cs sn c u v) - fst c) * (fst (ellipse_pos rx ry cs sn c u v) - fst c) <= r * r) by lra.
+  assert (BY : (snd (ellipse_pos rx ry cs sn c u v) - snd c) * (snd (ellipse_pos rx ry cs sn c u v) - snd c) <= r * r) by lra.
+  apply (sq_le_abs _ _ R0) in BX. apply (sq_le_abs _ _ R0) in BY. lra.
 Qed.
